@@ -8,7 +8,7 @@ import ast
 import math
 import z3
 
-from .core import (Arr, Ref, Obj, PyList, PyDict, Unsupported, EngineError, is_sym, to_real, to_int, as_term,
+from .core import (Arr, Ref, Obj, PyList, PyDict, Ragged, Unsupported, EngineError, is_sym, to_real, to_int, as_term,
                    conc_int, _unify, INT, REAL, BOOL)
 
 HANDLERS = {}
@@ -470,6 +470,8 @@ def _len(ex, st, args, kwargs, node):
             return cell.shape[0]
         if isinstance(cell, (PyList,)):
             return len(cell.items)
+        if isinstance(cell, Ragged):
+            return cell.n
         if isinstance(cell, PyDict):
             return len(cell.items)
     from .engine import SeqV
@@ -624,6 +626,28 @@ def _isfinite(ex, st, args, kwargs, node):
 # ----------------------------------------------------------------------------- list / dict / str methods
 def list_method(ex, st, ref, name, args, kwargs, node):
     cell = st.get(ref)
+    if isinstance(cell, Ragged):
+        if name != 'append':
+            raise Unsupported('%s on a symbolic-length list' % name)
+        a = arr(ex, st, args[0])
+        if a is None or a.ndim != 1:
+            raise Unsupported('append of a non 1-D array to a symbolic-length list')
+        n = to_int(cell.n)
+        if ex.c.mode == 'sym':
+            # select/store axioms on fresh functions: later obligations see atoms, not the row's expression
+            rl = z3.Function('rowlen!%d' % next(ex.c._fresh), INT, INT)
+            el = z3.Function('rag!%d' % next(ex.c._fresh), INT, INT, REAL)
+            i, j = ex.c.fresh('ri'), ex.c.fresh('rj')
+            st.assume(rl(n) == to_int(a.shape[0]))
+            st.assume(z3.ForAll([i], z3.Implies(i != n, rl(i) == cell.rowlen(i)), patterns=[rl(i)]))
+            st.assume(z3.ForAll([j], el(n, j) == to_real(a.elem((j,))), patterns=[el(n, j)]))
+            st.assume(z3.ForAll([i, j], z3.Implies(i != n, el(i, j) == cell.elem(i, j)), patterns=[el(i, j)]))
+            st.put(ref, Ragged(n + 1, lambda i, rl=rl: rl(to_int(i)), lambda i, j, el=el: el(to_int(i), to_int(j))))
+            return None
+        st.put(ref, Ragged(n + 1,
+                           lambda i, cell=cell, n=n, a=a: z3.If(to_int(i) == n, to_int(a.shape[0]), cell.rowlen(i)),
+                           lambda i, j, cell=cell, n=n, a=a: z3.If(to_int(i) == n, to_real(a.elem((j,))), cell.elem(i, j))))
+        return None
     if name == 'append':
         st.put(ref, PyList(cell.items + [args[0]]))
         return None
